@@ -522,17 +522,17 @@ def plan(tier, seed):
     from vf import core
 
     n = 16 if tier == "quick" else 48
-    shards = [{"kind": "dim", "shard": i, "seed": seed, "examples": 16 if tier == "quick" else 90} for i in range(n)]
-    shards += [{"kind": "programs", "shard": i, "seed": seed, "examples": 10 if tier == "quick" else 70} for i in range(n)]
+    shards = [{"kind": "dim", "shard": i, "seed": seed, "examples": 12 if tier == "quick" else 90} for i in range(n)]
+    shards += [{"kind": "programs", "shard": i, "seed": seed, "examples": 8 if tier == "quick" else 70} for i in range(n)]
     res = list(core.run_pool("vf.props.c04", "list_sym_ids", [{}], nproc=1))[0]
     if not res["ok"]:
         raise RuntimeError(res["tb"])
     ids = res["res"]
     if tier == "quick":
         rng = np.random.default_rng(seed)
-        ids = [ids[i] for i in sorted(rng.choice(len(ids), size=min(128, len(ids)), replace=False).tolist())]
+        ids = [ids[i] for i in sorted(rng.choice(len(ids), size=min(96, len(ids)), replace=False).tolist())]
     k = 16 if tier == "quick" else 32
-    shards += [{"kind": "catalog", "ids": ids[i::k], "budget_s": 90 if tier == "quick" else 500} for i in range(k)]
+    shards += [{"kind": "catalog", "ids": ids[i::k], "budget_s": 70 if tier == "quick" else 500} for i in range(k)]
     return shards
 
 
